@@ -436,3 +436,16 @@ Proof.
   - intros i Hi. now apply bytes_get_kmer_spec.
 Qed.
 End Instances.
+
+(* the same expected items, written as the correspondence run's list-level specification writes them
+   (Interop/DispatchSeq.spec_kmer_exts tests "last item" as i + K = n) *)
+Lemma kmer_exts_item_form c (l : dna) exts :
+  map (kmer_exts_item c l exts) (seq 0 (length l + 1 - kK c)) =
+  map (fun i => (kmer_at (kK c) l i,
+                 if Nat.eqb i 0 then exts_left exts else [nth (i - 1) l 0],
+                 if Nat.eqb (i + kK c) (length l) then exts_right exts else [nth (i + kK c) l 0]))
+      (seq 0 (length l + 1 - kK c)).
+Proof.
+  apply map_ext_in. intros i Hi. apply in_seq in Hi. unfold kmer_exts_item. do 2 f_equal.
+  destruct (Nat.eqb_spec i (length l - kK c)), (Nat.eqb_spec (i + kK c) (length l)); try reflexivity; lia.
+Qed.
